@@ -352,7 +352,11 @@ func c12GateRun(e *c12GateEnv, r *rand.Rand, c c12GateCase, marker string) (c12G
 	case "empty":
 		body = nil
 	case "malformed":
-		body = []byte(c12Pick(r, "{", "not json", string(okBody[:len(okBody)/2]), string(okBody)+"}", "\"str\"", "12", "{\"jsonrpc\":\"2.0\",\"id\":1,\"method\":7}", "\xff\xfe"))
+		body = []byte(c12Pick(r, "{", "not json", string(okBody[:len(okBody)/2]), "\"str\"", "12", "{\"jsonrpc\":\"2.0\",\"id\":1,\"method\":7}", "\xff\xfe", "}"+string(okBody)))
+	case "trailing":
+		// one well-formed message followed by more non-blank bytes: not a JSON text
+		body = []byte(string(okBody) + c12Pick(r, "}", " x", "]", ",", "\n"+string(okBody), string(okBody), "\n{\"jsonrpc\":\"2.0\",\"method\":\"notifications/progress\",\"params\":{\"progressToken\":\"t\",\"progress\":2}}", "\x00"))
+		conc["tail"] = strconv.Quote(string(body[len(okBody):min(len(body), len(okBody)+12)]))
 	}
 	conc["bodylen"] = strconv.Itoa(len(body))
 	var rd io.Reader = bytes.NewReader(body)
